@@ -22,14 +22,13 @@ theorem constructors_establish_inv {c : Cfg} (hc : c.Valid) (ws : List Nat) (hws
     truncation, no failed read), and the returned symbol lies in the support of the model
     (the model assigns it a non-zero probability). -/
 theorem decode_total {c : Cfg} (hc : c.Valid) {m : Model Sym} (hm : m.WellFormed c.P)
-    {x : Coder} (hx : Inv c x) (hcap : x.cap = none) :
-    ∃ s y, decode c m x = .ok (s, y) ∧ Inv c y ∧ y.cap = none ∧
+    {x : Coder} (hx : Inv c x) :
+    ∃ s y, decode c m x = .ok (s, y) ∧ Inv c y ∧ y.cap = x.cap ∧
       ∃ cum p, m.enc s = some (cum, p) ∧ 0 < p := by
   obtain ⟨hd, _, _⟩ := decode_spec hc hm hx
   obtain ⟨hinv, henc, _⟩ := encArith_decArith hc hm hx
   obtain ⟨hp, _, _, _⟩ := hm.1 _ _ _ henc
-  have hc2 : (decArith c m x).2.cap = none := by rw [CV.Ans.C01.decArith_cap]; exact hcap
-  exact ⟨_, _, hd, hinv, hc2, _, _, henc, hp⟩
+  exact ⟨_, _, hd, hinv, CV.Ans.C01.decArith_cap c m x, _, _, henc, hp⟩
 
 /-- Any number of decoding steps with any well-formed models on any data: always succeeds. -/
 theorem decodeAll_total {W S : Nat} (es : List (C04.MEntry Sym)) (hes : ∀ e ∈ es, e.OK W S)
